@@ -229,6 +229,13 @@ func (run *FuncRun) checkPost(st *State, res Val, in *ssa.Return) {
 			cenv.frame = st.frame
 		}
 		goals, skipped := safeGoals(cenv, cl)
+		if cl.Internal {
+			if skipped {
+				run.checkSkip[cl.Label]++
+			} else {
+				run.checkSeen[cl.Label]++
+			}
+		}
 		if skipped {
 			continue // a check clause about locals that do not exist on this path
 		}
@@ -290,10 +297,11 @@ type assignSet struct {
 	all    bool
 	globals map[string]bool
 	anyFields map[string]map[int]bool // component -> fields assignable in every object
+	wholeComps map[string]bool        // components in which every object may change
 }
 
 func newAssignSet() *assignSet {
-	return &assignSet{whole: map[string][]Term{}, fields: map[string]map[string][]int{}, frefs: map[string]map[string]Term{}, comps: map[string]Sort{}, globals: map[string]bool{}, anyFields: map[string]map[int]bool{}}
+	return &assignSet{whole: map[string][]Term{}, fields: map[string]map[string][]int{}, frefs: map[string]map[string]Term{}, comps: map[string]Sort{}, globals: map[string]bool{}, anyFields: map[string]map[int]bool{}, wholeComps: map[string]bool{}}
 }
 
 // assignSetOf evaluates the assigns clause in the pre-state.
@@ -309,6 +317,34 @@ func (env *CEnv) assignSetOfItems(items []AssignItem, where string) *assignSet {
 		switch it.Kind {
 		case "all":
 			as.all = true
+		case "allof":
+			ty := env.run.eng.resolveType(it.Type, env.pkg, env.tsubst)
+			switch u := under(ty).(type) {
+			case *types.Pointer:
+				so := reg.SortOf(u.Elem())
+				comp := compCell(so)
+				if _, isS := under(u.Elem()).(*types.Struct); isS {
+					comp = compStruct(so)
+				}
+				as.comps[comp] = ArrSort(SInt, so)
+				as.wholeComps[comp] = true
+			case *types.Map:
+				mc := env.run.mapComps(u)
+				for _, p := range []struct {
+					n string
+					s Sort
+				}{{mc.Dom, mc.DomS}, {mc.Val, mc.ValS}, {mc.Card, mc.CardS}} {
+					as.comps[p.n] = p.s
+					as.wholeComps[p.n] = true
+				}
+			case *types.Slice:
+				es := reg.SortOf(u.Elem())
+				comp := compArr(es)
+				as.comps[comp] = ArrSort(SInt, ArrSort(SInt, es))
+				as.wholeComps[comp] = true
+			default:
+				fail("%s: assigns all(T): T must be a pointer, map or slice type", fc.Where)
+			}
 		case "anyfield":
 			ty := env.run.eng.resolveType(it.Type, env.pkg, env.tsubst)
 			pt, ok := ty.Underlying().(*types.Pointer)
@@ -448,6 +484,9 @@ func (run *FuncRun) checkFrameAgainst(st *State, base *Snapshot, as *assignSet, 
 			run.addObligation(st, kind, name, Eq(cur, init), "package-level variable "+name+" unchanged", fc.Where)
 			continue
 		}
+		if as.wholeComps[name] {
+			continue
+		}
 		r := run.freshName("fr")
 		decl := "(declare-const " + r + " Int)"
 		rt := Term{r, SInt}
@@ -510,13 +549,30 @@ func (run *FuncRun) applyContract(st *State, fc *FuncContract, sig *types.Signat
 	if len(names) != len(args) {
 		fail("%s: contract %s: %d parameter names for %d arguments", run.key, fc.Key, len(names), len(args))
 	}
+	type copyBack struct {
+		lv   *LVal
+		cell Term
+	}
+	var copies []copyBack
 	for i, a := range args {
 		var t Term
 		switch x := a.(type) {
 		case Term:
 			t = x
 		case *LVal:
-			t = run.materialize(st, x)
+			if len(x.Path) == 0 && (x.Root == rObj || x.Root == rCell) {
+				t = x.Ref
+			} else {
+				// interior pointer: modelled copy-in/copy-out through a fresh cell
+				// (assumes the callee reaches the location only through this pointer)
+				cur := run.valToTerm(st, run.load(st, x))
+				cell := st.NewRef()
+				cl := run.derefPtr(st, cell, x.Type)
+				run.store(st, cl, cur)
+				t = cell
+				copies = append(copies, copyBack{x, cell})
+				run.note("interior pointer passed to %s: modelled copy-in/copy-out", fc.Key)
+			}
 		case *Closure, *FuncVal:
 			t = run.funcTerm(st, x)
 			env.closures = appendClosure(env.closures, names[i], x)
@@ -576,6 +632,10 @@ func (run *FuncRun) applyContract(st *State, fc *FuncContract, sig *types.Signat
 		}
 		st.script.Comment("ensures [" + cl.Label + "] of " + fc.Key)
 		st.Assume(t)
+	}
+	for _, cb := range copies {
+		v := run.load(st, run.derefPtr(st, cb.cell, cb.lv.Type))
+		run.store(st, cb.lv, v)
 	}
 	return res
 }
@@ -655,6 +715,9 @@ func (run *FuncRun) frameAxioms(name string, nw, old Term, preAlloc Term, as *as
 			return nil
 		}
 		return []string{fmt.Sprintf("(assert (= %s %s))", nw.S, old.S)}
+	}
+	if as != nil && as.wholeComps[name] {
+		return out // every object of this component may have changed
 	}
 	r := run.freshName("r")
 	var conds []string
